@@ -179,7 +179,7 @@ def merge(prop, tier, seed, jobs, meta, t_start, build_info):
         for v in r.get("violations", []):
             v = dict(v)
             v["job"] = j.name
-            v["bin"] = j.argv[0]
+            v.setdefault("bin", j.argv[0])
             violations.append(v)
         vcount += r.get("violation_count", 0)
         for w in r.get("inconclusive", []):
